@@ -8,6 +8,17 @@ from twisted.internet.task import Clock
 from afkak.common import UnknownTopicOrPartitionError
 
 
+def _exact_get_time(self):
+    """DelayedCall.getTime without the float coercion: Twisted initialises delayed_time to 0.0, so time + delayed_time turns an
+    exact (Fraction) virtual time of a concrete replay into a float.  Same value, no rounding."""
+    return self.time + self.delayed_time if self.delayed_time else self.time
+
+
+from twisted.internet.base import DelayedCall as _DelayedCall  # noqa: E402
+
+_DelayedCall.getTime = _exact_get_time
+
+
 class Pending:
     __slots__ = ("kind", "args", "d", "done", "cancelled", "t")
 
